@@ -443,7 +443,7 @@ theorem C10_used_downstream (k c v e : ℝ) :
     rfl
   rw [hs]
   simp only [Expr.eval, Expr.resultSums, Expr.quadTerms, Expr.pairTerms, Expr.diff, Gen.op2, Gen.d2,
-    List.map_cons, List.map_nil, List.append_nil]
+    Gen.quadTerm, Gen.combine, Gen.errOf, List.map_cons, List.map_nil, List.append_nil]
   simp [Num.sum]
   rw [Real.sqrt_sq_eq_abs, abs_mul, mul_comm]
 
